@@ -31,7 +31,9 @@ vars == <<l, m, viol>>
 
 Idle == [active |-> FALSE]
 
-NewRun(b) == [active |-> TRUE, b |-> b, cons |-> 0, acc |-> 0, eof |-> FALSE,
+\* (the begin record itself stays in the trace: the state holds its index only, or every state would carry - and TLC would
+\* fingerprint - the tens of thousands of chunk records a multi-GiB run lists there)
+NewRun(bi) == [active |-> TRUE, bi |-> bi, cons |-> 0, acc |-> 0, eof |-> FALSE,
               hard |-> <<>>,      \* sides of hard (non-retryable) faults, in order
               intr |-> {},        \* sides on which an Interrupted fault was injected
               owed |-> {},        \* kinds of call that were interrupted and not yet re-issued
@@ -40,6 +42,7 @@ NewRun(b) == [active |-> TRUE, b |-> b, cons |-> 0, acc |-> 0, eof |-> FALSE,
               maxheap |-> 0,      \* largest heap peak seen at any event of this run
               ended |-> FALSE]
 
+B(mm) == Rec[mm.bi]
 Init == l = 1 /\ m = Idle /\ viol = {}
 
 Side(kind) == IF kind = "read" THEN "read" ELSE "write"
@@ -61,7 +64,7 @@ BeginChecks(b) ==
 
 Begin ==
   /\ l <= N /\ Rec[l].ev = "begin"
-  /\ m' = NewRun(Rec[l])
+  /\ m' = NewRun(l)
   /\ viol' = viol \cup BeginChecks(Rec[l])
   /\ l' = l + 1
 
@@ -73,7 +76,7 @@ IsIntr(e) == e.ret = -2
 
 \* predicates evaluated at every I/O event
 EventChecks(e, mm) ==
-  LET b == mm.b IN
+  LET b == B(mm) IN
   Flag(e.heap <= b.heapk, IF b.op = "enc" THEN "E5_heap_not_constant" ELSE "D8_heap_not_constant")
   \cup (IF b.op = "enc"
         THEN Flag(e.cons - e.cov <= 3 * b.cs, "E4_output_lags_input")
@@ -91,7 +94,7 @@ EventChecks(e, mm) ==
 IOEvent ==
   /\ l <= N /\ Rec[l].ev \in {"read", "write", "flush"} /\ m.active
   /\ LET e == Rec[l]
-         total == IF m.b.op = "enc" THEN m.b.plen ELSE m.b.flen
+         total == IF B(m).op = "enc" THEN B(m).plen ELSE B(m).flen
      IN /\ m' = [m EXCEPT
                   !.cons = e.cons, !.acc = e.acc,
                   !.eof  = (m.eof \/ (e.ev = "read" /\ e.ret = 0 /\ e.req > 0 /\ e.cons = total)),
@@ -130,7 +133,7 @@ LegalOutput(b, e) ==
   /\ e.cons = b.plen
 
 EncEnd(e, mm) ==
-  LET b == mm.b
+  LET b == B(mm)
       nofault == mm.hard = <<>> /\ mm.intr = {}
   IN Flag(e.res \notin {"panic", "hang"}, "E6_panic_or_hang")
      \cup (IF mm.hard # <<>>
@@ -149,7 +152,7 @@ EncEnd(e, mm) ==
 (* end of a decryption run: D2 - D6 *)
 
 DecEnd(e, mm) ==
-  LET b == mm.b
+  LET b == B(mm)
       nofault == mm.hard = <<>> /\ mm.intr = {}
       plen == IF HasScn(b) THEN TotalPlain(F(b), b.H) ELSE b.plen
   IN Flag(e.res \notin {"panic", "hang"}, "D6_panic_or_hang")
@@ -180,18 +183,18 @@ DecEnd(e, mm) ==
 \* input (heap_ref >= 0), the peak heap of this run must not exceed that by more than 1 KiB, so even a
 \* few bytes kept per chunk show on an input of thousands of chunks.
 HeapIndependentOfLength(mm) ==
-  IF "heap_ref" \in DOMAIN mm.b /\ mm.b.heap_ref >= 0
-  THEN Flag(mm.maxheap <= mm.b.heap_ref + 1024,
-            IF mm.b.op = "enc" THEN "E5_heap_grows_with_input_length" ELSE "D8_heap_grows_with_input_length")
+  IF "heap_ref" \in DOMAIN B(mm) /\ B(mm).heap_ref >= 0
+  THEN Flag(mm.maxheap <= B(mm).heap_ref + 1024,
+            IF B(mm).op = "enc" THEN "E5_heap_grows_with_input_length" ELSE "D8_heap_grows_with_input_length")
   ELSE {}
 
 End ==
   /\ l <= N /\ Rec[l].ev = "end" /\ m.active
-  /\ viol' = viol \cup (IF m.b.op = "enc" THEN EncEnd(Rec[l], m) ELSE DecEnd(Rec[l], m))
+  /\ viol' = viol \cup (IF B(m).op = "enc" THEN EncEnd(Rec[l], m) ELSE DecEnd(Rec[l], m))
                   \cup HeapIndependentOfLength(m)
                   \* the stretch between the last I/O call and the return (e.g. a buffer sized by a header field just read)
                   \cup (IF "heap" \in DOMAIN Rec[l]
-                        THEN Flag(Rec[l].heap <= m.b.heapk, IF m.b.op = "enc" THEN "E5_heap_not_constant" ELSE "D8_heap_not_constant")
+                        THEN Flag(Rec[l].heap <= B(m).heapk, IF B(m).op = "enc" THEN "E5_heap_not_constant" ELSE "D8_heap_not_constant")
                         ELSE {})
                   \cup Flag(Rec[l].cons = m.cons /\ Rec[l].acc = m.acc, "TOOL_counts")
   /\ m' = [m EXCEPT !.ended = TRUE]
